@@ -141,8 +141,10 @@ class X12Base(object):
                 if hl_parent not in self.hl_stack:
                     err_str = 'HL parent ({}) is not a valid parent'.format(seg_data.get_value('HL02'))
                     self._seg_error('HL2', err_str)
-                while self.hl_stack and hl_parent != self.hl_stack[-1]:
-                    del self.hl_stack[-1]
+                    # the open levels stay as they are: later HLs that name one of them are right
+                else:
+                    while self.hl_stack and hl_parent != self.hl_stack[-1]:
+                        del self.hl_stack[-1]
             else:
                 if len(self.hl_stack) != 0:
                     pass
